@@ -27,6 +27,8 @@ SIG_ALL_CABLE = "get_hcables.ALL.from-wire-whose-first-pin-is-an-instance-pin.st
 SIG_NARROW = "get_hcables.narrow-selection.from-hpin.walks-past-the-adjacent-wire"
 SIG_UNIQUE = "HRef.is_unique.true-for-port-or-cable-reference-into-shared-definition"
 SIG_NOREF = "get_hinstances.instance-without-reference.no-occurrences-returned"
+SIG_RMDEF = "get_all_hrefs_of_instances.definition-removed-from-library.occurrences-not-returned"
+SIG_DANGLING = "hier-tracing.pin-of-removed-child-or-port-left-on-wire.returns-invalid-reference"
 
 
 def _meta():
@@ -192,6 +194,8 @@ class Built:
             top.name = r["topname"]
         top.reference = self.defs[r["top"]]
         nl.top_instance = top
+        self.h_children = [list(d.children) for d in self.defs]
+        self.h_ports = [list(d.ports) for d in self.defs]
         self.orphans = []
         for _ in range(r.get("orphans", 0)):
             o = sdn.Instance()
@@ -403,6 +407,7 @@ class Nets:
         self.inner_of = {}   # hpin key -> hwire key on the inside
         self.outer_of = {}   # hpin key -> hwire key on the outside
         self.pins_of = {}    # hwire key -> set of hpin keys
+        self.dangling = False  # some wire lists a pin of a removed child / port
         for k in elab.by_kind["hwire"]:
             self.parent[k] = k
             self.pins_of[k] = set()
@@ -421,14 +426,25 @@ class Nets:
                     for x in w.pins:
                         if isinstance(x, OuterPin):
                             c, q = x.instance, x.inner_pin
+                            # only pins of the elaborated design: the instance must (still) be a child of
+                            # this definition, the pin a pin of a port of its definition
+                            if c is None or q is None or c.reference is None or not any(c is kk for kk in ref.children):
+                                self.dangling = True
+                                continue
                             P = None
                             for PP in c.reference.ports:
                                 if any(y is q for y in PP.pins):
                                     P = PP
+                            if P is None:
+                                self.dangling = True
+                                continue
                             hp = (ids.of(q), ids.of(P), ids.of(c)) + key
                             self.outer_of[hp] = kw
                         else:
-                            P = port_of[id(x)]
+                            P = port_of.get(id(x))
+                            if P is None:
+                                self.dangling = True
+                                continue
                             hp = (ids.of(x), ids.of(P)) + key
                             self.inner_of[hp] = kw
                         self.pins_of[kw].add(hp)
@@ -709,7 +725,7 @@ def elem_roots(b):
 KIND_OF_FN = {"hinst": "hinst", "hport": "hport", "hpin": "hpin", "hcable": "hcable", "hwire": "hwire"}
 
 
-def c11_expected(elab, f, rj, rec, dpos_inv, b):
+def c11_expected(elab, f, rj, rec, dpos_inv, b, defs_by_idx=None):
     """The property's own demand (P) for the root/function combinations C11 speaks about; None when
     the combination is only covered by the correspondence with the model."""
     k = rj["k"]
@@ -727,7 +743,30 @@ def c11_expected(elab, f, rj, rec, dpos_inv, b):
     same = {"inst": "hinst", "port": "hport", "ipin": "hpin", "cable": "hcable", "wire": "hwire"}
     if k in same and same[k] == f:
         return sorted(elab.ends.get(rj["id"], []))
-    return None
+    # roots that stand for a set of instances: the instance itself, the instances of a definition, of the
+    # definitions of a library, the instance of an outer pin
+    occs = None
+    if k == "inst":
+        occs = sorted(elab.ends.get(rj["id"], []))
+    elif k in ("def", "lib") and defs_by_idx is not None:
+        want = [defs_by_idx[i] for i in ([rj["d"]] if k == "def" else rj["defs"])]
+        occs = sorted(elab.key(p) for p in elab.inst_paths if any(p[-1].reference is D for D in want))
+    elif k == "opin":
+        occs = sorted(elab.ends.get(rj["inst"], []))
+        if f == "hpin":
+            return sorted(x for x in elab.ends.get(rj["pin"], []) if len(x) > 2 and x[2:] in set(occs))
+        if f == "hport":
+            return sorted(set(x[1:] for x in elab.ends.get(rj["pin"], []) if len(x) > 2 and x[2:] in set(occs)))
+        if f != "hinst":
+            return None
+    if occs is None:
+        return None
+    if f == "hinst":
+        return occs
+    out = set()
+    for o in occs:
+        out.update(elab.below(f, o, rec))
+    return sorted(out)
 
 
 def unique_sig(elab, k, iu, eu):
@@ -802,6 +841,9 @@ def check_c11(res, sess, recipe, rng, tier_scale, edits=None, tag="gen"):
     roots = roots + href_roots
 
     queries, meta = [], []
+    defs_by_idx = {v: None for v in dpos.values()}
+    for d_ in collect_defs(b.nl):
+        defs_by_idx[dpos[id(d_)]] = d_
     pinlike = elab.kset["hport"] | elab.kset["hpin"]
     for obj in roots:
         rj = root_json(obj, ids, dpos)
@@ -839,7 +881,7 @@ def check_c11(res, sess, recipe, rng, tier_scale, edits=None, tag="gen"):
         kind_ok = elab.kset[f]
         if any(x not in kind_ok for x in tups if x in valid_set):
             res.spec_failure("get_%ss.%s.wrong-kind" % (f, rj["k"]), inp, "reference of another kind returned")
-        exp = c11_expected(elab, f, rj, rec, None, b)
+        exp = c11_expected(elab, f, rj, rec, None, b, defs_by_idx)
         if exp is not None and sorted(tups) != [tuple(x) for x in exp]:
             miss = sorted(set(map(tuple, exp)) - set(tups))
             extra = sorted(set(tups) - set(map(tuple, exp)))
@@ -938,7 +980,7 @@ def check_c11(res, sess, recipe, rng, tier_scale, edits=None, tag="gen"):
             oc = apply_edit(b, handles, op)
             done.append(op + [oc])
             res.dist("c11.edit.%s.%s" % (op[0], oc))
-            design2, _ = dump(b.nl, ids)
+            design2, _dpos2 = dump(b.nl, ids)
             st2 = sess.load(design2)
             if not st2["sorted"]:
                 res.dist("c11.edit-made-cycle")
@@ -978,6 +1020,79 @@ def check_c11(res, sess, recipe, rng, tier_scale, edits=None, tag="gen"):
                     res.spec_failure(usig or "HRef.is_unique.after-edit.disagrees-with-netlist", inp,
                                      "is_unique=%r expected=%r" % (iu, eu))
                 res.dist("c11.after-edit.%s" % ("valid" if ev else "invalid"))
+            # every element (also the removed / moved ones) as query root after the edit
+            dpos2 = _dpos2
+            defs2 = {}
+            for d_ in collect_defs(b.nl):
+                defs2[dpos2[id(d_)]] = d_
+            any_out = any(not D["inNl"] for D in design2["defs"])
+            eroots = [b.nl] + list(b.nl.libraries)
+            for d_, H in zip(b.defs, handles):
+                if id(d_) in dpos2:
+                    eroots.append(d_)
+                eroots += H["children"] + H["ports"] + H["cables"]
+                for lst in H["pins"]:
+                    eroots += lst[:2]
+                for lst in H["wires"]:
+                    eroots += lst[:2]
+                for kid in H["children"]:
+                    eroots += [o for o in list(kid.pins)[:1] if o.instance is not None and o.inner_pin is not None]
+            eroots.append(b.nl.top_instance)
+            if len(eroots) > 3 * tier_scale[0]:
+                eroots = [eroots[i] for i in sorted(rng.sample(range(len(eroots)), 3 * tier_scale[0]))]
+            ALLOWED = {"hinst": None,
+                       "hport": ("netlist", "lib", "def", "inst", "port", "ipin", "opin"),
+                       "hpin": ("netlist", "lib", "def", "inst", "port", "ipin", "opin"),
+                       "hcable": ("netlist", "lib", "def", "inst", "cable", "wire"),
+                       "hwire": ("netlist", "lib", "def", "inst", "cable", "wire")}
+            qs3, meta3 = [], []
+            for obj in eroots:
+                try:
+                    rj = root_json(obj, ids, dpos2)
+                except Exception:  # noqa  (a definition no longer reachable, an outer pin that lost its instance)
+                    continue
+                for f in ("hinst", "hport", "hpin", "hcable", "hwire"):
+                    if ALLOWED[f] is not None and rj["k"] not in ALLOWED[f]:
+                        continue   # would run over wire.pins / pin.wire of removed elements (C12's premise)
+                    rec = bool(rng.getrandbits(1))
+                    qs3.append({"f": f, "root": rj, "rec": rec, "sel": "I"})
+                    meta3.append((obj, rj, f, rec))
+            ans3 = sess.ask(qs3)
+            for (obj, rj, f, rec), a in zip(meta3, ans3):
+                inp = {"recipe": recipe, "edits": [list(x) for x in done], "query": {"f": f, "root": rj, "rec": rec}}
+                res["evaluations"] += 1
+                res.dist("c11.after-edit.root=%s" % rj["k"])
+                impl, _ = impl_query(sdn, f, obj, rec, "I", ids)
+                model = sorted(a["v"])
+                sig = None
+                if isinstance(impl, list) and impl != model and any_out and rj["k"] not in ("netlist", "href") \
+                        and set(map(tuple, impl)) <= set(map(tuple, model)):
+                    sig = SIG_RMDEF    # open finding: the netlist is looked for through the first instance only
+                if impl != model:
+                    res.corr_mismatch("Spydr.Hier.%s vs spydrnet.get_%ss (element root after edits)" % (f, f),
+                                      inp, impl, model, signature=sig)
+                if isinstance(impl, dict):
+                    res.spec_failure("get_%ss.after-edit.%s.raises-%s" % (f, rj["k"], impl["exc"]), inp, "")
+                    continue
+                if not elab2.inst_paths:
+                    # the top instance itself is no occurrence any more (its definition left the library):
+                    # the elaborated design is empty by is_valid's own definition while the instance-set
+                    # queries still walk from netlist.top_instance; only the correspondence is checked here
+                    res.dist("c11.after-edit.top-invalid-P-not-evaluated")
+                    continue
+                tups = [tuple(x) for x in impl]
+                if len(set(tups)) != len(tups):
+                    res.spec_failure("get_%ss.after-edit.%s.duplicate-reference" % (f, rj["k"]), inp, "")
+                if any(x not in elab2.all_valid for x in tups):
+                    res.spec_failure("get_%ss.after-edit.%s.returns-non-occurrence" % (f, rj["k"]), inp, "")
+                exp = c11_expected(elab2, f, rj, rec, None, b, defs2)
+                if exp is not None and sorted(tups) != [tuple(x) for x in exp]:
+                    miss = sorted(set(map(tuple, exp)) - set(tups))
+                    extra = sorted(set(tups) - set(map(tuple, exp)))
+                    what = "omission" if miss and not extra else ("extra" if extra and not miss else "differs")
+                    res.spec_failure(sig if (sig and what == "omission") else
+                                     "get_%ss.after-edit.%s.%s" % (f, rj["k"], what), inp,
+                                     "missing %r extra %r" % (miss[:3], extra[:3]))
             # the held references as query roots after the edit: a dead path answers nothing, a live one
             # answers like the model on the re-dumped design
             qs2, meta2 = [], []
@@ -1036,10 +1151,10 @@ def all_pinrefs(recipe, di):
 
 
 def pin_obj(b, di, q):
-    d = b.defs[di]
+    """the pin object in recipe coordinates (positions as built, whatever was removed since)"""
     if q[0] == "p":
-        return d.ports[q[1]].pins[q[2]]
-    k = d.children[q[1]]
+        return b.h_ports[di][q[1]].pins[q[2]]
+    k = b.h_children[di][q[1]]
     return k.pins[k.reference.ports[q[2]].pins[q[3]]]
 
 
@@ -1054,13 +1169,27 @@ def gen_pin_edit(rng, b):
             continue
         for q in all_pinrefs(r, di):
             cands.append((di, q, wires))
+    if rng.random() < 0.25:
+        # a structural edit that leaves pins behind on wires: remove a child / a port
+        di = rng.randrange(len(r["defs"]))
+        D = r["defs"][di]
+        if D["children"] and (rng.random() < 0.6 or not D["ports"]):
+            return ["rm_child", di, rng.randrange(len(D["children"]))]
+        if D["ports"]:
+            return ["rm_port", di, rng.randrange(len(D["ports"]))]
     if not cands:
         return None
+    from spydrnet.ir.outerpin import OuterPin as _OPin
     for _ in range(20):
         di, q, wires = rng.choice(cands)
         try:
             pin = pin_obj(b, di, q)
         except Exception:  # noqa
+            continue
+        if isinstance(pin, _OPin):
+            if pin.instance is None or pin.instance.parent is not b.defs[di]:
+                continue       # pin of a removed child: not connected any further
+        elif pin.port is None or pin.port.definition is not b.defs[di]:
             continue
         ci, wi = rng.choice(wires)
         if pin.wire is None:
@@ -1073,6 +1202,14 @@ def gen_pin_edit(rng, b):
 
 def apply_pin_edit(b, op):
     try:
+        if op[0] == "rm_child":
+            k = b.h_children[op[1]][op[2]]
+            k.parent.remove_child(k)
+            return "ok"
+        if op[0] == "rm_port":
+            x = b.h_ports[op[1]][op[2]]
+            x.definition.remove_port(x)
+            return "ok"
         pin = pin_obj(b, op[1], op[2])
         if op[0] in ("disc", "move") and pin.wire is not None:
             pin.wire.disconnect_pin(pin)
@@ -1112,7 +1249,8 @@ def _c12_pass(res, sess, b, ids, recipe, rng, tier_scale, tag, only, done):
     import spydrnet as sdn
     design, dpos = dump(b.nl, ids)
     st = sess.load(design)
-    if not (st["wf"] and st["wfnet"] and st["sorted"]):
+    structural = any(op[0] in ("rm_child", "rm_port") for op in done)
+    if not (st["wf"] and (st["wfnet"] or structural) and st["sorted"]):
         res["obligations"].append(("hier: dumped design satisfies WF, WFNet and Sorted", False,
                                    json.dumps({"recipe": recipe, "pin_edits": done})[:1500]))
         return False
@@ -1247,7 +1385,11 @@ def _c12_pass(res, sess, b, ids, recipe, rng, tier_scale, tag, only, done):
                 extra = sorted(set(tups) - exp)
                 sig = "get_%ss.%s.from-%s.%s" % (f, SELS[sel], kind,
                                                 "omission" if miss and not extra else ("extra" if extra and not miss else "differs"))
-                # --- classification of the two open findings (exact failure classes) ---
+                # --- open finding: pins of a removed child / port left on a wire are followed ---
+                if nets.dangling and extra and not miss and all(x not in elab.all_valid for x in extra):
+                    sig = SIG_DANGLING
+                    known_sig = sig
+                # --- classification of the two (fixed) findings of the BOTH/ALL branch (exact failure classes) ---
                 if sel == "A" and kind in ("hwire", "hcable") and miss and not extra:
                     # get_hwires: the BOTH/ALL branch drops every outer pin of the start wire, so the closure
                     # only starts when the wire has a port pin; get_hcables additionally clobbers its
@@ -1272,6 +1414,9 @@ def _c12_pass(res, sess, b, ids, recipe, rng, tier_scale, tag, only, done):
                         known_sig = sig
                 res.spec_failure(sig, inp, "missing %r extra %r" % (miss[:3], extra[:3]))
         if impl != model:
+            if known_sig is None and nets.dangling and not isinstance(impl, dict) and \
+                    sorted(x for x in impl if tuple(x) in elab.all_valid) == model:
+                known_sig = SIG_DANGLING
             if known_sig is None and sel == "B" and not isinstance(impl, dict):
                 # BOTH is outside the property's statement, but it runs through the same two code paths:
                 # the shared BOTH/ALL branch for a wire start (outer pins are dropped) and, in get_hcables,
